@@ -183,7 +183,7 @@ impl Engine for C14 {
         let mut t = Trace::new("C14", seed, run);
         let ty = TAGGABLE[rng.below(TAGGABLE.len())];
         let cfg = if rng.chance(1, 8) { GenCfg::medium() } else { GenCfg::small() };
-        let kind = rng.weighted(&[10, 3, 2, 2, 3, 3]);
+        let kind = rng.weighted(&[10, 3, 2, 2, 3, 3, 2]);
         let (body, kname) = match kind {
             0 => (gen_wire(&mut rng, ty, false, &cfg), "valid"),
             1 => {
@@ -203,6 +203,26 @@ impl Engine for C14 {
                 let mut a = it.as_array().cloned().unwrap_or_default();
                 a.push(refcbor::Item::bytes(b"x"));
                 (refcbor::encode(&refcbor::Item::array(a)), "element-added")
+            }
+            6 => {
+                // valid body whose unprotected header carries a value nested right at the CBOR
+                // parser's depth limit (the tag itself costs the parser one more level)
+                let it = gen_item(&mut rng, ty, &cfg);
+                let mut a = it.as_array().cloned().unwrap_or_default();
+                let d = rng.range(244, 258);
+                let nest_kind = rng.below(3);
+                let mut v = refcbor::Item::uint(0);
+                for _ in 0..d {
+                    v = match nest_kind {
+                        0 => refcbor::Item::array(vec![v]),
+                        1 => refcbor::Item::map(vec![(refcbor::Item::uint(0), v)]),
+                        _ => refcbor::Item::tag(1, v),
+                    };
+                }
+                if a.len() >= 2 {
+                    a[1] = refcbor::Item::map(vec![(refcbor::Item::uint(99), v)]);
+                }
+                (refcbor::encode(&refcbor::Item::array(a)), "nested-at-limit")
             }
             5 => {
                 // valid body in a non-canonical encoding (wide heads, indefinite lengths)
@@ -372,7 +392,14 @@ impl Engine for C14 {
                         st.distinct(1, h.finish());
                     }
                     let reg_b = REG_TAGS[i].1;
-                    let must_accept = form == Form::Tagged && d.tags.len() == 1 && d.tags[0] == reg_b && base[i].is_some() && value_ok;
+                    // exactly the property's iff: own registered tag, once, over a body the untagged
+                    // decoder accepts.  (An earlier version additionally required that coset's own
+                    // Value decoder accepts the tagged bytes; that hid the fact that the tag costs the
+                    // CBOR parser one nesting level - see DESIGN.md 10.8.)
+                    let must_accept = form == Form::Tagged && d.tags.len() == 1 && d.tags[0] == reg_b && base[i].is_some();
+                    if must_accept && !value_ok {
+                        st.inc("probe:own-tag-over-accepted-body-but-not-a-Value");
+                    }
                     match (&r, must_accept) {
                         (Ok(got), true) => {
                             if !base[i].as_ref().map(|b| b.same(got)).unwrap_or(false) {
@@ -387,9 +414,16 @@ impl Engine for C14 {
                             st.inc("probe:own-tag-accepted");
                         }
                         (Err(e), true) => {
+                            // rejection because the tag pushed the item over the CBOR parser's
+                            // nesting limit is a class of its own (known finding, DESIGN.md 10.8)
+                            let inv = if err_class(e) == "DecodeFailed(RecursionLimitExceeded)" {
+                                "C14.own-tag-rejected(recursion-limit)"
+                            } else {
+                                "C14.own-tag-rejected"
+                            };
                             return Ok(Some(
                                 Violation::new(
-                                    "C14.own-tag-rejected",
+                                    inv,
                                     format!("{} rejected ({}) its registered tag {} (head {}) over a body that {} accepts: {}", ep.name, err_class(e), reg_b, hex_short(&d.prefix), untagged_eps[i].name, hex_short(&u)),
                                 )
                                 .narrowed(narrowed(ep, d)),
@@ -426,6 +460,10 @@ impl Engine for C14 {
     }
     fn finding_key(&self, t: &Trace, invariant: &str) -> String {
         let f = t.steps.iter().find(|s| s.kind == "fault");
+        if invariant == "C14.own-tag-rejected(recursion-limit)" {
+            // keyed by the kind of body only: the same for all six types
+            return format!("{}:{}", invariant, t.meta("body").unwrap_or("?"));
+        }
         format!(
             "{}:{}:{}",
             invariant,
